@@ -56,7 +56,8 @@ def plans(fmt, num, seed, stmts=3, tokens=30, small=False):
         consts = {"NNs": "3", "Locals": tlc.tla_set(["x", "y"]), "NLit": "4", "ShortLits": "{1, 2}", "Pfx": tlc.tla_set(["", "p", "q"]),
                   "MaxStmts": str(stmts), "MaxDepth": "2", "MaxTokens": str(tokens)}
         if small:      # few IRIs and literals: labelled blank nodes recur across statements and graph blocks
-            consts.update({"NNs": "1", "Locals": tlc.tla_set(["x"]), "NLit": "1", "ShortLits": "{1}", "Pfx": tlc.tla_set(["p"])})
+            # two namespaces, one prefix label, one local name: the same p:x recurs before and after a re-binding of p
+            consts.update({"NNs": "2", "Locals": tlc.tla_set(["x"]), "NLit": "1", "ShortLits": "{1}", "Pfx": tlc.tla_set(["p"])})
         consts.update(GEN[fmt])
         tlc.write_cfg(cfg, spec="Spec", constants=consts, constraints=["Export"])
         r, items = tlc.export_json("TurtleSpelling", cfg, timeout=900, extra=["-simulate", "num=%d" % num, "-depth", "120", "-seed", str(seed)])
@@ -70,6 +71,75 @@ def plans(fmt, num, seed, stmts=3, tokens=30, small=False):
                 seen.add(key)
                 out.append(it)
         return r, out
+    finally:
+        shutil.rmtree(d, ignore_errors=True)
+
+
+def _iri(ns, l):
+    return {"k": "iri", "ns": ns, "l": l}
+
+
+def _node(t, how, pfx=None):
+    sp = {"how": how}
+    if pfx is not None:
+        sp["pfx"] = pfx
+    return {"t": "node", "term": t, "sp": sp}
+
+
+def scenarios(fmt):
+    """token sequences composed so that particular author choices meet (the simulation seldom lines them up): the same prefixed name
+    before and after its prefix is re-bound (each combination of @prefix / PREFIX), the same relative reference before and after the
+    base is replaced (@base / BASE), both inside and outside TriG blocks, the empty prefix, a blank node label across graph blocks"""
+    docs = []
+    dot = {"t": "."}
+    for kw1 in ("@prefix", "PREFIX"):
+        for kw2 in ("@prefix", "PREFIX"):
+            for pfx in ("p", ""):
+                docs.append([{"t": "prefix", "kw": kw1, "pfx": pfx, "ns": 1}, _node(_iri(1, "x"), "pname", pfx), _node(_iri(1, "y"), "pname", pfx), _node(_iri(1, "x"), "pname", pfx), dot,
+                             {"t": "prefix", "kw": kw2, "pfx": pfx, "ns": 2}, _node(_iri(2, "x"), "pname", pfx), _node(_iri(2, "y"), "pname", pfx), _node(_iri(2, "x"), "pname", pfx), dot,
+                             {"t": "prefix", "kw": kw1, "pfx": pfx, "ns": 1}, _node(_iri(1, "x"), "pname", pfx), _node(_iri(2, "y"), "abs"), _node(_iri(1, "y"), "pname", pfx), dot])
+    for kw1 in ("@base", "BASE"):
+        for kw2 in ("@base", "BASE"):
+            docs.append([{"t": "base", "kw": kw1, "ns": 1}, _node(_iri(1, "x"), "rel"), _node(_iri(1, "y"), "rel"), _node(_iri(1, "x"), "rel"), dot,
+                         {"t": "base", "kw": kw2, "ns": 2}, _node(_iri(2, "x"), "rel"), _node(_iri(2, "y"), "rel"), _node(_iri(2, "x"), "rel"), dot,
+                         _node(_iri(1, "x"), "abs"), _node(_iri(2, "y"), "rel"), _node(_iri(2, "x"), "rel"), dot])
+    # two prefixes for one namespace, one prefix re-bound while the other stays
+    docs.append([{"t": "prefix", "kw": "@prefix", "pfx": "p", "ns": 1}, {"t": "prefix", "kw": "PREFIX", "pfx": "q", "ns": 1}, _node(_iri(1, "x"), "pname", "p"), _node(_iri(1, "y"), "pname", "q"), _node(_iri(1, "x"), "pname", "q"), dot,
+                 {"t": "prefix", "kw": "PREFIX", "pfx": "p", "ns": 3}, _node(_iri(3, "x"), "pname", "p"), _node(_iri(1, "y"), "pname", "q"), _node(_iri(3, "y"), "pname", "p"), dot])
+    if fmt == "trig":
+        b1 = {"t": "node", "term": {"k": "bnode", "v": "b1"}, "sp": {"how": "label"}}
+        extra = []
+        for d in docs[:6]:
+            # the same statements, the middle one inside a named graph block
+            i = [k for k, t in enumerate(d) if t["t"] == "."]
+            g = {"t": "gopen", "kw": True, "named": True, "term": _iri(3, "y"), "sp": {"how": "abs"}}
+            j = i[0] + 2        # after the first statement and the following directive
+            extra.append(d[:j] + [g] + d[j:i[1] + 1] + [{"t": "gclose"}] + d[i[1] + 1:])
+        docs += extra
+        # one label in the default graph, in two named blocks and as a graph name
+        docs.append([b1, _node(_iri(1, "x"), "abs"), b1, dot,
+                     {"t": "gopen", "kw": False, "named": True, "term": _iri(1, "y"), "sp": {"how": "abs"}}, b1, _node(_iri(1, "x"), "abs"), _node(_iri(1, "y"), "abs"), dot, {"t": "gclose"},
+                     {"t": "gopen", "kw": True, "named": True, "term": {"k": "bnode", "v": "b1"}, "sp": {"how": "label"}}, _node(_iri(1, "x"), "abs"), _node(_iri(1, "x"), "abs"), b1, dot, {"t": "gclose"}])
+    return docs
+
+
+def targets(fmt, docs):
+    """the meaning of composed token sequences, computed by TLC steering the writer machine along them"""
+    import json
+    d = tlc.scratch("rvf-tgt-")
+    try:
+        tf = os.path.join(d, "targets.json")
+        json.dump(docs, open(tf, "w"))
+        cfg = os.path.join(d, "gen.cfg")
+        consts = {"NNs": "3", "Locals": tlc.tla_set(["x", "y"]), "NLit": "4", "ShortLits": "{1, 2}", "Pfx": tlc.tla_set(["", "p", "q"]), "MaxStmts": "8", "MaxDepth": "2", "MaxTokens": "80"}
+        consts.update(GEN[fmt])
+        tlc.write_cfg(cfg, spec="Spec2", constants=consts, constraints=["Export2"])
+        r, items = tlc.export_json("TurtleSpellingTargets", cfg, timeout=600, env={"TARGETS_FILE": tf})
+        got = {it["id"] for it in items}
+        missing = [i + 1 for i in range(len(docs)) if i + 1 not in got]
+        if missing:
+            raise tlc.MachineryError("composed documents %s are not behaviours of the writer machine (%s)" % (missing[:5], fmt))
+        return r, items
     finally:
         shutil.rmtree(d, ignore_errors=True)
 
@@ -100,6 +170,13 @@ def run(out, tier, seed):
             for v in range(2):
                 routes = ROUTES if (pi + v) % 5 == 0 else ["str", ROUTES[1 + (pi + v) % (len(ROUTES) - 1)]]
                 jobs.append({"cfg": {}, "events": [{"op": "spell_plan", "fmt": fmt, "plan": p, "seed": seed * 1000003 + pi * 2 + v, "routes": routes, "family": "machine"}]})
+    for fmt in ("turtle", "trig"):
+        r, items = targets(fmt, scenarios(fmt))
+        out.states += r.distinct
+        out.extra["composed_" + fmt] = len(items)
+        for pi, p in enumerate(items):
+            for v in range(3):
+                jobs.append({"cfg": {}, "events": [{"op": "spell_plan", "fmt": fmt, "plan": p, "seed": seed * 7919 + pi * 3 + v, "routes": ROUTES if v == 0 else ["str", "bytes"], "family": "composed"}]})
     from ..spell_docs import all_docs
     for fmt, name, text, quads in all_docs():
         enc = "utf-16" if name == "utf-16" else "utf-8"
